@@ -887,6 +887,8 @@ func runC07(r *Run) {
 	ruleLineSpan(r, "R07.12")
 	r.floor("R07.13", 14)
 	ruleDrainLoopsConnect(r, "R07.13")
+	r.floor("R07.14", 1)
+	ruleLocksHeldAcrossSteps(r, "R07.14")
 	// R07.10 (= R05.4a): a store routed to the cache on a presence test of fewer than all of its bytes is written past the line end (index out of range in Line.set)
 	r.floor("R07.10", 7)
 	for _, v := range variants(r.W) {
@@ -1138,5 +1140,131 @@ func ruleDrainLoopsConnect(r *Run, rule string) {
 			}
 			return true
 		})
+	}
+}
+
+// ruleLocksHeldAcrossSteps (R07.14): a mutex acquired in one coroutine step and
+// released in a LATER step (its Unlock sits in a closure nested below the
+// acquisition) is held across cycles. A pipeline flush resets the coroutine
+// between the two steps, so the unit's flush must be able to release the lock: the
+// acquired mutex is stored in a field of the unit and flush unlocks that field.
+// Otherwise the line stays locked for ever and the next access to it spins.
+func ruleLocksHeldAcrossSteps(r *Run, rule string) {
+	w := r.W
+	for _, v := range variants(w) {
+		if v.pkg == nil || !v.pipelined() {
+			continue
+		}
+		info := v.info
+		for _, f := range v.pkg.Syntax {
+			for _, d := range f.Decls {
+				fd, ok := d.(*ast.FuncDecl)
+				if !ok || fd.Body == nil || fd.Recv == nil {
+					continue
+				}
+				n := 0
+				// walk closures with depth
+				var walk func(node ast.Node, depth int, acquired map[types.Object]int, acqPos map[types.Object]token.Pos)
+				type held struct {
+					obj types.Object
+					pos token.Pos
+				}
+				var helds []held
+				walk = func(node ast.Node, depth int, acquired map[types.Object]int, acqPos map[types.Object]token.Pos) {
+					ast.Inspect(node, func(m ast.Node) bool {
+						if m == nil || m == node {
+							return true
+						}
+						if lit, ok := m.(*ast.FuncLit); ok {
+							walk(lit.Body, depth+1, acquired, acqPos)
+							return false
+						}
+						call, ok := m.(*ast.CallExpr)
+						if !ok {
+							return true
+						}
+						sel, ok := call.Fun.(*ast.SelectorExpr)
+						if !ok {
+							return true
+						}
+						id, ok := ast.Unparen(sel.X).(*ast.Ident)
+						if !ok {
+							return true
+						}
+						fn, ok := typeutil.Callee(info, call).(*types.Func)
+						if !ok || fn.Pkg() == nil || fn.Pkg().Path() != "sync" {
+							return true
+						}
+						obj := info.Uses[id]
+						switch fn.Name() {
+						case "TryLock", "Lock":
+							if _, seen := acquired[obj]; !seen {
+								acquired[obj] = depth
+								acqPos[obj] = call.Pos()
+							}
+						case "Unlock":
+							if d0, seen := acquired[obj]; seen && depth > d0 {
+								already := false
+								for _, h := range helds {
+									if h.obj == obj {
+										already = true
+									}
+								}
+								if !already {
+									helds = append(helds, held{obj, acqPos[obj]})
+								}
+							}
+						}
+						return true
+					})
+				}
+				walk(fd.Body, 0, map[types.Object]int{}, map[types.Object]token.Pos{})
+				for _, h := range helds {
+					n++
+					// stored in a field of the receiver?
+					var field types.Object
+					ast.Inspect(fd.Body, func(m ast.Node) bool {
+						as, ok := m.(*ast.AssignStmt)
+						if !ok || len(as.Lhs) != 1 || len(as.Rhs) != 1 {
+							return true
+						}
+						rid, ok := ast.Unparen(as.Rhs[0]).(*ast.Ident)
+						if !ok || info.Uses[rid] != h.obj {
+							return true
+						}
+						if sel, ok := ast.Unparen(as.Lhs[0]).(*ast.SelectorExpr); ok {
+							if s := info.Selections[sel]; s != nil && s.Kind() == types.FieldVal {
+								field = s.Obj()
+							}
+						}
+						return true
+					})
+					released := false
+					if field != nil {
+						// a flush method of the same receiver type unlocks the field
+						recvT := namedOf(info.TypeOf(fd.Recv.List[0].Type))
+						if recvT != nil {
+							if fl := hasMethodNamed(recvT, "flush", "Flush"); fl != nil {
+								if ffd, _ := w.FuncDecl(fl); ffd != nil && ffd.Body != nil {
+									ast.Inspect(ffd.Body, func(m ast.Node) bool {
+										if call, ok := m.(*ast.CallExpr); ok {
+											if sel, ok := call.Fun.(*ast.SelectorExpr); ok && sel.Sel.Name == "Unlock" {
+												if s2, ok := ast.Unparen(sel.X).(*ast.SelectorExpr); ok {
+													if s := info.Selections[s2]; s != nil && s.Obj() == field {
+														released = true
+													}
+												}
+											}
+										}
+										return true
+									})
+								}
+							}
+						}
+					}
+					r.check(released, rule, fmt.Sprintf("%s.%s:held-across-steps#%d", v.rel, declName(fd), n), h.pos, "a mutex acquired in one coroutine step and released in a later one is recorded in a field of the unit (%v) that the unit's flush unlocks (%v): a flush between the two steps must not leave the line locked", field != nil, released)
+				}
+			}
+		}
 	}
 }
